@@ -21,6 +21,7 @@
 -/
 import Pakhi.Lemmas.Control
 import Pakhi.Lemmas.FrameInv
+import Pakhi.Lemmas.Names
 
 namespace Pakhi
 namespace C03
@@ -119,5 +120,24 @@ theorem loop_anywhere {prog : List Stmt} {α : Type} (h : Structured prog) (D : 
     Post D ctx k s F r (sStmt prog F (.loop lm body cm) k s) :=
   stmt_refines h D _ F k s ctx il r hw hc hk hctx hsuf hs hrun hr
 
+/-! ### Names (whole-body statements, `Lemmas/Names.lean`) -/
+
+/-- **a loop leaves no names behind**: when `লুপ { … } আবার;` is over (its `থামাও` was reached), every scope binds exactly
+    the names it bound before the loop — whatever was declared in the body, in blocks inside it, in any iteration -/
+theorem loop_restores_names {prog : List Stmt} (h : Structured prog) (G : Nat) (lm : Meta) (body : SBlock) (cm : Meta) (k : List Stmt)
+    (s s' : St) (sig : Sig) (hw : body.WF) (hsuf : IsSuffixOf ((SStmt.loop lm body cm).flatten ++ k) prog)
+    (hs : StOK (GoodFn prog) prog s) (hrun : sStmt prog G (.loop lm body cm) k s = .ok (sig, s')) (hsig : ∀ c, sig ≠ .ret c) :
+    K s' = K s := by
+  have hn : ∀ g, g ≤ G → NamesInv prog g := fun g _ => namesInv_all h g g (Nat.le_refl _)
+  simp only [SStmt.flatten, List.cons_append, List.append_assoc, List.nil_append] at hsuf
+  simp only [sStmt] at hrun
+  have hs0 : StOK (GoodFn prog) prog { s with loops := { start := body.flatten ++ (.cont cm :: k), envs := s.scopes.length } :: s.loops } :=
+    ⟨hs.heap, hs.scopes, fun l hl => by
+      rcases List.mem_cons.mp hl with rfl | h1
+      · exact ⟨hsuf.tail, hs.scopes.length_pos⟩
+      · exact hs.loops l h1⟩
+  have := (n_iter h G hn body cm k (nBlock h G hn body) hw hsuf.tail G _ hs0 sig s' hrun).2.2.2 hsig
+  have h2 : NE ({ s with loops := { start := body.flatten ++ (.cont cm :: k), envs := s.scopes.length } :: s.loops } : St) s' := by simpa using this
+  exact h2
 end C03
 end Pakhi
